@@ -135,6 +135,27 @@ CHECKS["C07"] = dict(
     technique="Lean 4 proof over core Rat (field and floor lemmas); differential correspondence incl. representation; Fraction oracle",
     ref="§5 C07")
 
+CHECKS["C16"] = dict(
+    text="Lean: models that follow the Python loops of the list builtins whose algorithm lives in the repository, and laws proved for ALL "
+         "lists: reverse involution; uniquify = same members, no duplicates, original order, head kept; cumulative sums = prefix sums and "
+         "deltas undoes them; interleave/uninterleave inverse; wrap's chunks concatenate back with bounded length; prefixes = take(i+1); "
+         "group-consecutive concatenates back with constant groups; counts = distinct items with multiplicities; sort = ordered "
+         "permutation; sum append/reverse laws. Tie: 13 elements vs their models on exhaustive small lists; ~40 law oracles on the real "
+         "elements (sort, flatten, zip, transpose, sublists, powerset, permutations, cartesian product, grading, membership, ...).",
+    note=COMMON_NOTE + "Partial: builtins that delegate to sorted/itertools (permutations, powerset, cartesian product, sublists) are covered by the law "
+         "oracles only (T5). Known finding F30: the empty product is 0.",
+    technique="Lean 4 proof by induction on lists over loop-faithful models; differential correspondence; executable law oracles",
+    ref="§5 C16")
+CHECKS["C17"] = dict(
+    text="Lean: executable references for primality, divisors, factorial, binomial, totient, lcm, prime factors, next prime, binary digits "
+         "and the ranges, with theorems that each reference IS the textbook definition (isPrimeB_iff, mem_divisors, choose_mul_fact: "
+         "C(n,k) k! (n-k)! = n!, lcm_spec, primeFactors_dvd, nextPrime_spec, range_specs, bin_roundtrip). Tie: the real elements (which "
+         "delegate to sympy/math) vs the references and vs naive Python definitions for every n up to 600/20000 and all pairs up to 40/300, "
+         "inverse pairs composed, and a repeat-after-mutation oracle (answers must not be shared objects).",
+    note=COMMON_NOTE + "Partial by nature: Lean proves reference = definition; that sympy agrees with the reference is established only on the ranges run (T5).",
+    technique="Lean 4 proof (elementary number theory on executable references, no Mathlib); differential correspondence; naive-definition oracles",
+    ref="§5 C17")
+
 NOT_YET = {}
 
 def main():
